@@ -599,15 +599,73 @@ func (it *stringIter) next(i *interpreter) tuple {
 		it.pos += sz
 		return okv
 	}
-	// symbolic lead byte: ASCII is exact; non-ASCII symbolic runes are outside the engine
-	b := i.byteTerm(it.s[it.pos])
-	if i.branch(i.ts.BVCmp("bvult", b, i.ts.BV(8, 0x80))) {
-		okv[2] = i.ts.ZeroExt(24, b)
-		it.pos++
-		return okv
+	// symbolic bytes: follow unicode/utf8.DecodeRune exactly, forking on the byte classes
+	r, sz := i.symDecodeRune(it.s[it.pos:])
+	okv[2] = r
+	it.pos += sz
+	return okv
+}
+
+// symDecodeRune decodes one UTF-8 sequence whose bytes may be symbolic. It mirrors the
+// table-driven unicode/utf8.DecodeRune: invalid or truncated sequences yield (RuneError, 1).
+func (i *interpreter) symDecodeRune(p []value) (value, int) {
+	ts := i.ts
+	const runeError = int32(0xFFFD)
+	in := func(b *Term, lo, hi uint64) *Term {
+		return ts.And(ts.BVCmp("bvule", ts.BV(8, lo), b), ts.BVCmp("bvule", b, ts.BV(8, hi)))
 	}
-	i.outside("range over a string with a symbolic non-ASCII byte")
-	return nil
+	b0 := i.byteTerm(p[0])
+	if i.branch(ts.BVCmp("bvult", b0, ts.BV(8, 0x80))) {
+		return i.norm(ts.ZeroExt(24, b0), types.Typ[types.Int32]), 1
+	}
+	type class struct {
+		lo, hi   uint64 // lead byte range
+		sz       int
+		alo, ahi uint64 // accepted range of the second byte
+	}
+	classes := []class{
+		{0xC2, 0xDF, 2, 0x80, 0xBF},
+		{0xE0, 0xE0, 3, 0xA0, 0xBF},
+		{0xE1, 0xEC, 3, 0x80, 0xBF},
+		{0xED, 0xED, 3, 0x80, 0x9F},
+		{0xEE, 0xEF, 3, 0x80, 0xBF},
+		{0xF0, 0xF0, 4, 0x90, 0xBF},
+		{0xF1, 0xF3, 4, 0x80, 0xBF},
+		{0xF4, 0xF4, 4, 0x80, 0x8F},
+	}
+	for _, c := range classes {
+		if !i.branch(in(b0, c.lo, c.hi)) {
+			continue
+		}
+		if len(p) < c.sz {
+			return runeError, 1
+		}
+		b1 := i.byteTerm(p[1])
+		if !i.branch(in(b1, c.alo, c.ahi)) {
+			return runeError, 1
+		}
+		z := func(b *Term, m uint64) *Term { return ts.ZeroExt(24, ts.BVOp("bvand", b, ts.BV(8, m))) }
+		sh := func(t *Term, n uint64) *Term { return ts.BVOp("bvshl", t, ts.BV(32, n)) }
+		if c.sz == 2 {
+			r := ts.BVOp("bvor", sh(z(b0, 0x1F), 6), z(b1, 0x3F))
+			return i.norm(r, types.Typ[types.Int32]), 2
+		}
+		b2 := i.byteTerm(p[2])
+		if !i.branch(in(b2, 0x80, 0xBF)) {
+			return runeError, 1
+		}
+		if c.sz == 3 {
+			r := ts.BVOp("bvor", ts.BVOp("bvor", sh(z(b0, 0x0F), 12), sh(z(b1, 0x3F), 6)), z(b2, 0x3F))
+			return i.norm(r, types.Typ[types.Int32]), 3
+		}
+		b3 := i.byteTerm(p[3])
+		if !i.branch(in(b3, 0x80, 0xBF)) {
+			return runeError, 1
+		}
+		r := ts.BVOp("bvor", ts.BVOp("bvor", sh(z(b0, 0x07), 18), sh(z(b1, 0x3F), 12)), ts.BVOp("bvor", sh(z(b2, 0x3F), 6), z(b3, 0x3F)))
+		return i.norm(r, types.Typ[types.Int32]), 4
+	}
+	return runeError, 1
 }
 
 type mapIter struct {
